@@ -83,7 +83,10 @@ struct C02ShapeNode { signed char parent; unsigned char tag, ns; unsigned attrMa
 #define C02_MAXNODES 10
 #define C02_END { -2, 0, 0, 0, 255, 0, 255, 0, 0 }
 extern "C" void vp_c02_force_text(QDomElement *el, const QString *text);
-static void c02ForceAttr(QDomElement &el, const Vocab &v, unsigned a, unsigned len) { QString name, val; vp_c02_pick(&name, &v.attrs[0][0], C02_A, v.nAttrs, a); vp_c02_fixed_text(&val, len); vp_c02_force_attr(&el, &name, &val); }
+// len 1..3: text of that length with arbitrary units; 0x80 | r: row r of the vocabulary's value table (concrete)
+static void c02ForceAttr(QDomElement &el, const Vocab &v, unsigned a, unsigned len) { QString name, val; vp_c02_pick(&name, &v.attrs[0][0], C02_A, v.nAttrs, a);
+    if (len & 0x80) vp_c02_pick(&val, &v.vals[0][0], C02_A, v.nVals, len & 0x7f); else vp_c02_fixed_text(&val, len);
+    vp_c02_force_attr(&el, &name, &val); }
 // builds shape `si` of `shapes` into nodes[]; returns the root element in nodes[0]
 static void c02BuildShape(const Vocab &v, const C02ShapeNode (*shapes)[C02_MAXNODES], unsigned si, C02Node *nodes)
 {
